@@ -366,10 +366,10 @@ class G:
         n = self.i(1, 3) if n is None else n
         return ["range", ["int", lo], ["int", lo + n - 1]]
 
-    def rng2(self) -> tuple[list[Any], list[Any]]:
-        """Two ranges with different first item and different length."""
+    def rng2(self, same_len: bool = False) -> tuple[list[Any], list[Any]]:
+        """Two ranges with different first item and (unless `same_len`) different length."""
         lo, n = self.i(0, 3), self.i(1, 3)
-        n2 = self.pick([k for k in (1, 2, 3) if k != n])
+        n2 = n if same_len else self.pick([k for k in (1, 2, 3) if k != n])
         return self.rng(lo, n), self.rng(lo + self.i(1, 4), n2)
 
     def lam(self, err: list[Any] | None = None) -> tuple[list[Any], list[str]]:
@@ -824,15 +824,24 @@ class G:
             if w == "tablerow" and wrappers and wrappers[-1] == "tablerow":
                 w = "for"
             wrappers.append(w)
+        # Callee outputs are compared position by position.  With one loop level a longer loop only appends
+        # segments; with two levels it would re-align them, so nested loops keep their length in both runs.
+        cform = self.i(0, 3)  # argument form of the enclosing render / include (cctx render, include)
+        if cctx == "render" and not outer_ok:
+            cform = 3
+        levels = sum(w in ("for", "tablerow") for w in wrappers) + (cctx == "render" and cform == 1)
+        same_len = levels >= 2
+        for w in wrappers:
             if w in ("for", "tablerow"):
                 v_ = self.pick(POOL)
-                ra, rb = self.rng2()
+                ra, rb = self.rng2(same_len)
                 who, vid = self.new_vid("caller")
                 s = {"t": w, "var": v_, "iter": ra, "body": block, "else": None, "alt": {"iter": rb},
                      "alt_who": who}
                 vc.append([v_, f"{w}-var", vid])
                 helper = "forloop" if w == "for" else "tablerowloop"
-                vc.append([helper, helper, vid])
+                if not same_len:
+                    vc.append([helper, helper, vid])
                 block = [s]
             elif w == "with":
                 n_ = self.pick(POOL)
@@ -875,9 +884,7 @@ class G:
             c = {"t": cctx, "name": ["str", "c"], "args": []}
             n_ = self.pick(POOL)
             v1, v2 = self.lit2()
-            form = self.i(0, 3)
-            if cctx == "render" and not outer_ok:
-                form = 3  # no arguments at all on the enclosing render
+            form = cform  # 3: no arguments at all on the enclosing render / include
             vary = cctx == "include" or outer_ok
             kind_ = "include-arg" if cctx == "include" else "outer-arg"
             who, vid = self.new_vid("caller")
@@ -887,12 +894,13 @@ class G:
                     c.update(alt={"var": v2}, alt_who=who)
                     vc.append([n_, kind_, vid])
             elif form == 1 and cctx == "render":
-                ra, rb = self.rng2()
+                ra, rb = self.rng2(same_len)
                 c.update(var=ra, loop=True, alias=n_)
                 if vary:
                     c.update(alt={"var": rb}, alt_who=who)
                     vc.append([n_, kind_, vid])
-                    vc.append(["forloop", kind_, vid])
+                    if not same_len:
+                        vc.append(["forloop", kind_, vid])
             elif form in (1, 2):
                 c["args"] = [[n_, v1]]
                 if vary:
@@ -900,7 +908,7 @@ class G:
                     vc.append([n_, kind_, vid])
             main = top_pre + [c]
 
-        outer_bound = (cctx == "macro" and outer_ok) or (cctx == "render" and form != 3)
+        outer_bound = (cctx == "macro" and outer_ok) or (cctx == "render" and cform != 3)
         return {"kind": "iso", "callee": callee_kind, "cctx": cctx, "wrappers": wrappers, "main": main,
                 "outer_bound": outer_bound,
                 "templates": self.templates, "data": self.data(), "varied_caller": vc, "varied_callee": ve,
@@ -1265,10 +1273,8 @@ class C07(Prop):
                 d = seg_diff(var[1])
                 if d is not None:
                     names = self._leaked(d[1], d[2])
-                    # (sets, not positions: a wrapping loop of another length only re-aligns the segments)
                     for kk in self._attribute(
-                            case, "caller", vc,
-                            lambda o: o[0] != "ok" or not set(RE_SEG.findall(o[1])) <= set(segs0), names, res):
+                            case, "caller", vc, lambda o: o[0] != "ok" or seg_diff(o[1]) is not None, names, res):
                         res.fail("O1", f"caller-to-callee:{ck}:{kk}",
                                  f"callee output #{d[0]} differs when only caller locals vary: {d[1]!r} vs "
                                  f"{d[2]!r}; varied={vc}; {self._show(case)}")
@@ -1309,9 +1315,10 @@ class C07(Prop):
                     # only the first probe: one context serves all iterations of the loop form, so what
                     # the callee assigns in one iteration legitimately shadows its arguments in the next
                     got = leads[0].get(field) if leads else None
+                    form = "loop" if isinstance(want, list) else "arg"
                     want = want[0] if isinstance(want, list) else want
                     if leads and got != want:
-                        res.fail("O0", f"arg-not-visible:{ck}:{'loop' if isinstance(want, list) else 'arg'}",
+                        res.fail("O0", f"arg-not-visible:{ck}:{form}",
                                  f"argument {field!r} should read {want!r} in the callee, read {got!r}; "
                                  f"{self._show(case)}")
                         return
@@ -1443,7 +1450,7 @@ class C07(Prop):
         res.nontrivial = bool(path) or (exit_kind == "return" and bool(case["binders"]))
         for field, b, a in zip(("scope", "loops", "template", "disabled_tags"), before, after):
             if b != a:
-                cons = where
+                cons = "for" if field == "loops" else (path[-1] if path else "top")
                 if field == "scope" and isinstance(a, int) and isinstance(b, int) and a > b:
                     keys = sorted({str(k) for m in list(ctx.scope._maps)[: a - b] for k in m})
                     cons = constructs_for(keys, case["binders"], "anon")
